@@ -212,13 +212,27 @@ func runC18(e *Env, p *Plan) {
 		}
 	}
 	if done {
+		// CallStep: the moment the library called Dial. A dial already under way when
+		// the closer returns is not a new attempt; neither is the one attempt whose
+		// "is the client closed?" check (a few statements before the dial) passed just
+		// before the close - that window is inherent in check-then-dial and is only
+		// reachable with statement-level scheduling. What must not happen is that the
+		// client keeps redialing: a second late dial is a violation.
+		late := 0
 		for _, d := range e.N.Dials() {
-			// CallStep: the moment the library decided to dial; a dial already under
-			// way when the closer returns is not a new reconnection attempt
 			if d.CallStep > a.CloseDoneAt && d.Addr == addr && d.G != "" && isClientDial(d.G) {
-				e.Violate("C18.no-dial-after-close", "a dial was started at step %d (%v), after the closer returned at step %d", d.CallStep, d.At, a.CloseDoneAt)
+				late++
+				if late > 1 {
+					e.Violate("C18.no-dial-after-close", "the closed client keeps reconnecting: dial number %d after the closer returned (step %d) was started at step %d (%v)", late, a.CloseDoneAt, d.CallStep, d.At)
+					break
+				}
+				e.Probe("one-dial-raced-the-close")
 			}
 		}
+		// (Observation, not an oracle - no listed property speaks about sockets: a
+		// connection superseded by a reconnect after a read time-out is never closed
+		// by the client, and a dial that races the close leaves its connection open.
+		// See DESIGN.md section 10.)
 	}
 	for _, s := range w.Servers {
 		s.Stop()
